@@ -38,13 +38,44 @@ func streamC16(c *Ctx) {
 	if !c.Quick() {
 		depth = 6
 	}
+	im := NewImpl("badger-mem", c.Scratch)
+	defer im.Destroy()
+	var batchDocs []*d.Document
+	var batchCrits []query.Criteria
+	var batchLines []J
+	flush := func() bool {
+		if len(batchDocs) == 0 {
+			return true
+		}
+		ok := c16ThroughDB(c, im, batchDocs, batchCrits, batchLines)
+		batchDocs, batchCrits, batchLines = nil, nil, nil
+		return ok
+	}
 	for i := 0; i < n; i++ {
 		g := NewGen(c.Rng, dm)
 		h := NewHistGen(g, 1, depth)
 		docM := h.Doc(fixedId(i))
+		if g.pick(3) == 0 {
+			arr := []interface{}{}
+			for k := g.pick(4); k > 0; k-- {
+				arr = append(arr, h.val())
+			}
+			docM["arr"] = arr
+		}
 		doc := d.NewDocumentOf(docM)
 		cj := h.Crit(g.pick(depth + 1))
 		cr := decCrit(cj)
+		batchDocs = append(batchDocs, doc)
+		batchCrits = append(batchCrits, cr)
+		batchLines = append(batchLines, J{"k": "sat", "crit": cj, "doc": encDoc(docM)})
+		if len(batchDocs) == 24 {
+			if !flush() {
+				return
+			}
+		}
+		if !c16ListLaws(c, dr, h, g, docM, doc) {
+			return
+		}
 		line := J{"k": "sat", "crit": cj, "doc": encDoc(docM)}
 		c.Evals++
 		r, pan := safeSatisfy(cr, doc)
@@ -138,6 +169,161 @@ func streamC16(c *Ctx) {
 			c.Sample(line)
 		}
 	}
+	flush()
+}
+
+// c16ListLaws: In(e1..en) holds iff some ei equals the field value, Contains(e1..en) iff every ei occurs in
+// the array - with lists that repeat elements, repeat them under other Go kinds, mix in field references and
+// draw from the document's own values (so that the laws are exercised on both outcomes).
+func c16ListLaws(c *Ctx, dr *Driver, h *HistGen, g *Gen, docM map[string]interface{}, doc *d.Document) bool {
+	pool := []interface{}{}
+	if a, ok := docM["arr"].([]interface{}); ok {
+		pool = append(pool, a...)
+	}
+	for _, f := range []string{"x", "y"} {
+		if v, ok := docM[f]; ok {
+			pool = append(pool, v)
+		}
+	}
+	pool = append(pool, h.val(), nil)
+	n := 1 + g.pick(4)
+	var xs []interface{}  // Go operands
+	var xj []interface{}  // protocol operands
+	for k := 0; k < n; k++ {
+		var v interface{}
+		if k > 0 && g.pick(3) == 0 {
+			v = xs[g.pick(len(xs))] // repeat an earlier element
+			if ks := goKinds(v); ks != nil {
+				v = ks[g.pick(len(ks))]
+			}
+			if _, isRef := v.(string); isRef {
+				// keep "$f" spellings as they are
+			}
+		} else if g.pick(8) == 0 {
+			v = "$" + []string{"x", "y", "zz"}[g.pick(3)]
+		} else {
+			v = pool[g.pick(len(pool))]
+		}
+		xs = append(xs, v)
+		xj = append(xj, J{"lit": encValue(normKind(v))})
+	}
+	for _, f := range []string{"arr", "x"} {
+		all, any := true, false
+		for _, e := range xs {
+			r1, p1 := safeSatisfy(query.Field(f).Contains(e), doc)
+			r2, p2 := safeSatisfy(query.Field(f).In(e), doc)
+			if p1 != "" || p2 != "" {
+				c.Violation(&Replay{Stream: "sat", Case: []interface{}{J{"k": "sat", "crit": J{"contains": []interface{}{hx(f), xj}}, "doc": encDoc(docM)}}, Actual: []string{"panic " + p1 + p2}, Note: "Contains/Eq panicked"})
+				return false
+			}
+			all = all && r1
+			any = any || r2
+		}
+		gotC, _ := safeSatisfy(query.Field(f).Contains(xs...), doc)
+		gotI, _ := safeSatisfy(query.Field(f).In(xs...), doc)
+		c.Evals += 2
+		c.Count("list-law:contains=" + b01(gotC))
+		c.Count("list-law:in=" + b01(gotI))
+		lineC := J{"k": "sat", "crit": J{"contains": []interface{}{hx(f), xj}}, "doc": encDoc(docM)}
+		lineI := J{"k": "sat", "crit": J{"in": []interface{}{hx(f), xj}}, "doc": encDoc(docM)}
+		if gotC != all {
+			c.Violation(&Replay{Stream: "sat", Case: []interface{}{lineC}, Expected: []string{b01(all)}, Actual: []string{b01(gotC)},
+				Note: "Contains(e1..en) must hold iff every ei is contained (Contains(e1) And ... And Contains(en))"})
+			return false
+		}
+		if gotI != any {
+			c.Violation(&Replay{Stream: "sat", Case: []interface{}{lineI}, Expected: []string{b01(any)}, Actual: []string{b01(gotI)},
+				Note: "In(e1..en) must hold iff the field compares equal to some ei (In(e1) Or ... Or In(en))"})
+			return false
+		}
+		if m := dr.Ask(lineC); m != b01(gotC) {
+			c.Unexplained(&Replay{Stream: "sat", Case: []interface{}{lineC}, Expected: []string{m}, Actual: []string{b01(gotC)}}, "correspondence K-C16/sat")
+			return false
+		}
+		if m := dr.Ask(lineI); m != b01(gotI) {
+			c.Unexplained(&Replay{Stream: "sat", Case: []interface{}{lineI}, Expected: []string{m}, Actual: []string{b01(gotI)}}, "correspondence K-C16/sat")
+			return false
+		}
+	}
+	return true
+}
+
+// normKind maps a Go number of any kind to the canonical kind the protocol carries
+func normKind(v interface{}) interface{} {
+	switch n := v.(type) {
+	case int:
+		return int64(n)
+	case int8:
+		return int64(n)
+	case int16:
+		return int64(n)
+	case int32:
+		return int64(n)
+	case uint:
+		return uint64(n)
+	case uint8:
+		return uint64(n)
+	case uint16:
+		return uint64(n)
+	case uint32:
+		return uint64(n)
+	case float32:
+		return float64(n)
+	}
+	return v
+}
+
+// c16ThroughDB: the criteria evaluated directly (Satisfy) and through the database (FindAll, which first
+// normalises the criteria) must select the same documents.
+func c16ThroughDB(c *Ctx, im *Impl, docs []*d.Document, crits []query.Criteria, lines []J) bool {
+	coll := "c16"
+	db := im.db
+	if ok, _ := db.HasCollection(coll); ok {
+		db.DropCollection(coll)
+	}
+	if err := db.CreateCollection(coll); err != nil {
+		return true
+	}
+	if err := db.Insert(coll, docs...); err != nil {
+		return true // a generated document the database refuses (not this stream's subject)
+	}
+	for ci, cr := range crits {
+		var got []*d.Document
+		var err error
+		pan := ""
+		func() {
+			defer func() {
+				if r := recover(); r != nil {
+					pan = fmt.Sprint(r)
+				}
+			}()
+			got, err = db.FindAll(query.NewQuery(coll).Where(cr))
+		}()
+		if pan != "" {
+			c.Violation(&Replay{Stream: "sat", Case: []interface{}{lines[ci]}, Actual: []string{"panic " + pan}, Note: "FindAll with this criteria panicked"})
+			return false
+		}
+		if err != nil {
+			continue
+		}
+		sel := map[string]bool{}
+		for _, g := range got {
+			sel[g.ObjectId()] = true
+		}
+		for di, doc := range docs {
+			want, _ := safeSatisfy(cr, doc)
+			c.Evals++
+			if sel[doc.ObjectId()] != want {
+				c.Count("through-db:mismatch")
+				c.Violation(&Replay{Stream: "sat", Case: []interface{}{J{"k": "sat", "crit": lines[ci]["crit"], "doc": lines[di]["doc"]}},
+					Expected: []string{b01(want)}, Actual: []string{b01(sel[doc.ObjectId()])},
+					Note: "the criteria selects this document when evaluated directly (Satisfy) but not through FindAll, or conversely: literal normalisation changed its meaning"})
+				return false
+			}
+		}
+		c.Count("through-db:criteria")
+	}
+	return true
 }
 
 func min(a, b int) int {
